@@ -26,6 +26,9 @@ type Scenario struct {
 	Check func(c Case, r *simrt.Result) *Outcome
 	// MaxSteps overrides the default step cap.
 	MaxSteps int
+	// Once, if set, is a check without schedule that rides along (run once per check invocation by
+	// the first worker), e.g. an exhaustive enumeration of a small sequential space.
+	Once func(tier string) *Outcome
 }
 
 var Props = map[string]*Scenario{}
